@@ -134,6 +134,8 @@ func GenPackage(t *rapid.T, o GenOpts, nfiles, perFile int) *PackageSpec {
 			f.Layout = 1 + uniform(t, "layoutbits", 15)
 		case 4:
 			f.Layout = 8
+		case 6:
+			f.Layout = 32 + uniform(t, "layoutbits32", 32) // a byte order mark, plus any other layout feature
 		case 5:
 			f.Layout = 16 + uniform(t, "layoutbits16", 8) // //line directives, possibly with CRLF / no final newline / go:generate
 		}
